@@ -346,14 +346,18 @@ def parse_ragged(lang, code):
         body = '\n'.join(rest)
         m = re.search(r'getsubarray <- function\(k\)\{\n    starti <- i\[1,k\] \+ 1  # R starts counting from 1\n'
                       r'    endi <- i\[2,k\]        # R has inclusive end index\n'
-                      r'    if \(starti > endi\) \{(?:  # subarray is empty)?\n'
+                      r'    if \(starti (>|>=|==) endi( \+ 1)?\) \{(?:  # subarray is empty)?\n'
                       r'        return \((c\(\)|array\(numeric\(\),c\(([\d,]+)\)\))\)(?: # empty array)?\n'
                       r'    \} else \{\n        return \(v\[((?:,)*)starti:endi\]\)\n    \}\n\}\n', body + '\n')
         if not m:
             raise NotWellFormed('R: accessor not recognised: %r' % body[:300])
-        ed = None if m.group(1) == 'c()' else _ints(m.group(2), 'R empty dims')
-        acc = _acc(origin=1, kaxis='second', startadd=1, endadd=0, endincl=True, nplace=len(m.group(3)), side='before',
-                   guard='empty_if_start_gt_end', emptydims=ed)
+        ed = None if m.group(3) == 'c()' else _ints(m.group(4), 'R empty dims')
+        gop = m.group(1) + (m.group(2) or '')
+        guard = {'>': 'empty_if_start_gt_end', '== + 1': 'empty_if_start_gt_end', '>=': 'empty_if_start_ge_end'}.get(gop)
+        if guard is None:
+            raise NotWellFormed('R: unknown emptiness guard %r' % gop)
+        acc = _acc(origin=1, kaxis='second', startadd=1, endadd=0, endincl=True, nplace=len(m.group(5)), side='before',
+                   guard=guard, emptydims=ed)
         ex = _example(r'# example to read (\w+) \(k=(\d+)\) subarray:', r'\nsa (=|<-) getsubarray\((\d+)\)\s*$', raw, 'R',
                       ('=', '<-'))
         return {'idx': idx, 'val': val, 'acc': acc, 'ex': ex}
